@@ -154,6 +154,24 @@ func procsFor(shard int, replay bool) int {
 	return p
 }
 
+// perturbFor gives each shard of a concurrency engine the probability (per thousand) with which the
+// mutexes of lugu/qiloop's bus packages yield or sleep at a lock boundary (hook bus/util/vsync, build
+// tag verif): half of the shards run unperturbed (most cases per second), the others widen the gaps
+// between critical sections more or less. The table's length is coprime with procsTable's.
+// VERIF_PERTURB=n in the environment forces one value for every shard.
+var perturbTable = []int{0, 50, 0, 150, 20, 0, 100, 0, 30, 250, 0}
+
+func perturbFor(shard int, replay bool) int {
+	if v := os.Getenv("VERIF_PERTURB"); v != "" {
+		n, _ := strconv.Atoi(v)
+		return n
+	}
+	if replay {
+		return 100
+	}
+	return perturbTable[shard%len(perturbTable)]
+}
+
 func env(extra ...string) []string {
 	e := []string{}
 	for _, kv := range os.Environ() {
@@ -265,6 +283,7 @@ func runShard(id, tier string, seed int64, shard, nshards int, cfg propCfg, work
 			if p := procsFor(shard+int(seed&0xffff), only >= 0); p > 0 {
 				ev = append(ev, "GOMAXPROCS="+strconv.Itoa(p))
 			}
+			ev = append(ev, "VERIF_PERTURB="+strconv.Itoa(perturbFor(shard+int(seed&0xffff), only >= 0)))
 		}
 		cmd.Env = ev
 		errf, _ := os.Create(base + ".stderr")
@@ -798,6 +817,11 @@ func check(id, tier string, only int, onlyStream string, writeEvidence bool) int
 			procs = append(procs, procsFor(s+int(seed&0xffff), only >= 0))
 		}
 		cov["gomaxprocs_by_shard"] = procs
+		pert := []int{}
+		for s := 0; s < nshards; s++ {
+			pert = append(pert, perturbFor(s+int(seed&0xffff), only >= 0))
+		}
+		cov["lock_boundary_perturbation_permille_by_shard"] = pert
 		cov["race_reports"] = raceKeys
 		cov["race_detector"] = "on"
 	}
